@@ -11,6 +11,16 @@
 (* Event fields used: k, t, r, tok, code, cls, plen, ck (cache-key id),     *)
 (* b1n/b1m/b1s, b2n/b2m/b2s (block options, -1 = absent), cid/off/cok       *)
 (* (content: which canonical string, at which offset, consistent), inv.     *)
+(*                                                                          *)
+(* Every request has a BODY aspect (Block1: which assembly it starts,       *)
+(* extends or fails to extend; none: the payload is the body) and, once the *)
+(* body is complete, a RENDERING aspect (Block2 absent or NUM = 0: a block-0*)
+(* request -- the handler is invoked with the complete body, exactly once,  *)
+(* and the response is the first slice of THAT rendering; NUM > 0: a later  *)
+(* block -- a slice of the rendering made for the latest block-0 request of *)
+(* the same endpoint / method / cache key, whatever payload or Block1       *)
+(* option the request repeats).  Combined Block1 + Block2 transfers are the *)
+(* two aspects on one key.                                                  *)
 EXTENDS Naturals, Integers, Sequences, FiniteSets
 
 CONSTANTS T            \* lifetime lower bound of reassembly / rendering state (ticks)
@@ -18,65 +28,96 @@ CONSTANTS T            \* lifetime lower bound of reassembly / rendering state (
 Has(f, k) == k \in DOMAIN f
 Put(f, k, v) == [x \in (DOMAIN f) \cup {k} |-> IF x = k THEN v ELSE f[x]]
 Min(a, b) == IF a < b THEN a ELSE b
+\* size exponent 7 is the BERT marker of RFC 8323: over UDP a "block" of it is 1024 bytes at most
 Size(szx) == 2 ^ (Min(szx, 6) + 4)
 
-ObsInit == [ asm  |-> << >>,    \* key -> [len, use, amb]       request bodies under reassembly
-             rend |-> << >>,    \* key -> [cid, len, use, amb]  rendering of the latest block-0 request
+\* how often which judgement was made (evidence only; not part of any clause)
+CntKeys == {"continue", "e408", "e400", "e400or408", "e400b", "e400or408b", "first", "firstplain", "slice", "slice408", "any",
+            "calls", "first_after_block1", "combined_first_slice", "later_payload_method", "later_with_payload",
+            "later_with_block1", "later_rebased", "szx7", "first_larger_than_rendering", "whole_body_no_block1"}
+
+ObsInit == [ asm  |-> << >>,    \* key -> [len, use, umax, amb, stick]   request bodies under reassembly
+             rend |-> << >>,    \* key -> [cid, len, use, umax, amb, chunked, s0]  rendering of the latest block-0 request
              exp  |-> << >>,    \* <<r, tok>> -> what the response to this request has to look like
              inv  |-> << >>,    \* invocation -> <<r, tok>>
-             bad  |-> {} ]
+             bad  |-> {},
+             cnt  |-> [c \in CntKeys |-> 0] ]
 
 Flag(o, c) == [o EXCEPT !.bad = @ \cup {c}]
 FlagIf(o, cond, c) == IF cond THEN Flag(o, c) ELSE o
+IncIf(o, cond, c) == IF cond THEN [o EXCEPT !.cnt[c] = @ + 1] ELSE o
 
 \* `use': last successful use; `umax': last access of any kind (a rejected continuation may or may
 \* not count as a use -- the statement does not say)
 Alive(s, t) == IF t < s.use + T THEN "yes" ELSE IF t >= s.umax + 2 * T THEN "no" ELSE "maybe"
 
 NoExp == [kind |-> "any", key |-> <<0, 0, 0>>, n |-> 0, m |-> 0, s |-> 0, len |-> 0, cid |-> 0, off |-> 0,
-          calls |-> 0, body |-> -1, seen |-> FALSE]
+          calls |-> 0, body |-> -1, seen |-> FALSE,
+          blen |-> -1,        \* length of the complete body the handler has to see (block-0 requests)
+          fin |-> FALSE,      \* the request completes a body that is more than "nothing" (Block1, a payload, PUT/POST...)
+          hasb1 |-> FALSE,    \* the request carries a Block1 option
+          later |-> FALSE,    \* the request asks for a later block (Block2 NUM > 0)
+          pay |-> 0]          \* payload length of the request
 
-(* ---- a request datagram --------------------------------------------------- *)
-ObsRxBlock1(o, e, key, rk) ==
+FirstKinds == {"first", "firstplain"}
+IsSuccess(code) == code >= 65 /\ code <= 69
+\* the response's size exponent: the request's; for the reserved exponent 7 the largest regular one is as good
+SzxOk(req, resp) == resp = req \/ (req = 7 /\ resp = 6)
+
+(* ---- the body aspect of a request datagram ---------------------------------- *)
+\* -> [o (assembly table updated), bk (continue / final / whole / e408 / e400 / e400or408 / any), blen]
+ObsBody(o, e, key) ==
   LET size == Size(e.b1s)
-      X(kind, len) == [NoExp EXCEPT !.kind = kind, !.key = key, !.n = e.b1n, !.m = e.b1m, !.s = e.b1s, !.len = len]
-  IN IF e.b1n = 0
-       THEN LET o1 == [o EXCEPT !.asm = Put(@, key, [len |-> e.plen, use |-> e.t, umax |-> e.t,
-                                                   amb |-> (e.b1m = 1 /\ e.plen # size)])]
-            IN [o1 EXCEPT !.exp = Put(@, rk, IF e.b1m = 1 THEN X("continue", 0) ELSE X("final", e.plen))]
-     ELSE IF ~Has(o.asm, key) THEN [o EXCEPT !.exp = Put(@, rk, X("e408", 0))]
+      R(oo, bk, blen) == [o |-> oo, bk |-> bk, blen |-> blen]
+      Fresh(len, amb, stick) == [len |-> len, use |-> e.t, umax |-> e.t, amb |-> amb, stick |-> stick]
+  IN IF e.b1n < 0 THEN R(o, "whole", e.plen)
+     ELSE IF e.b1s = 7
+       THEN \* BERT-sized request blocks are outside the statement: nothing about this assembly is judged
+            \* until the next block 0
+            R(IF Has(o.asm, key) /\ e.b1n # 0 THEN [o EXCEPT !.asm[key].amb = TRUE, !.asm[key].umax = e.t]
+              ELSE [o EXCEPT !.asm = Put(@, key, Fresh(0, TRUE, FALSE))], "any", -1)
+     ELSE IF e.b1n = 0
+       THEN R([o EXCEPT !.asm = Put(@, key, Fresh(e.plen, e.b1m = 1 /\ e.plen # size,
+                                                   \* a Block2 option asking for a LATER block on the first of several
+                                                   \* request blocks: what the completed request then asks for is open
+                                                   e.b1m = 1 /\ e.b2n > 0))],
+              IF e.b1m = 1 THEN "continue" ELSE "final", e.plen)
+     ELSE IF ~Has(o.asm, key) THEN R(o, "e408", -1)
      ELSE LET a == o.asm[key]
               al == Alive(a, e.t)
-          IN IF al = "no" THEN [o EXCEPT !.exp = Put(@, rk, X("e408", 0))]
-             ELSE IF al = "maybe" \/ a.amb
-               THEN [o EXCEPT !.asm[key].amb = TRUE, !.asm[key].umax = e.t, !.exp = Put(@, rk, X("any", 0))]
+              touched == [o EXCEPT !.asm[key].amb = TRUE, !.asm[key].umax = e.t]
+          IN IF al = "no" THEN R(o, "e408", -1)
+             ELSE IF al = "maybe" \/ a.amb THEN R(touched, "any", -1)
              ELSE IF e.b1m = 1 /\ e.plen # size
                THEN \* size contradiction (4.00); where it is also a gap, 4.08 is as good
-                    [o EXCEPT !.asm[key].amb = TRUE, !.asm[key].umax = e.t,
-                              !.exp = Put(@, rk, X(IF e.b1n * size = a.len THEN "e400" ELSE "e400or408", 0))]
-             ELSE IF e.b1n * size # a.len
-               THEN [o EXCEPT !.asm[key].amb = TRUE, !.asm[key].umax = e.t, !.exp = Put(@, rk, X("e408", 0))]
-             ELSE LET o1 == [o EXCEPT !.asm[key].len = a.len + e.plen, !.asm[key].use = e.t, !.asm[key].umax = e.t]
-                  IN [o1 EXCEPT !.exp = Put(@, rk, IF e.b1m = 1 THEN X("continue", 0) ELSE X("final", a.len + e.plen))]
+                    R(touched, IF e.b1n * size = a.len THEN "e400" ELSE "e400or408", -1)
+             ELSE IF e.b1n * size # a.len THEN R(touched, "e408", -1)
+             ELSE R([o EXCEPT !.asm[key].len = a.len + e.plen, !.asm[key].use = e.t, !.asm[key].umax = e.t],
+                    IF e.b1m = 1 THEN "continue" ELSE IF a.stick /\ e.b2n < 0 THEN "any" ELSE "final",
+                    a.len + e.plen)
 
-ObsRxBlock2(o, e, key, rk) ==
+(* ---- the rendering aspect of a request whose body is complete ------------------ *)
+ObsRender(o, e, key, rk, X) ==
   LET size == Size(e.b2s)
-      X(kind) == [NoExp EXCEPT !.kind = kind, !.key = key, !.n = e.b2n, !.s = e.b2s]
-  IN IF e.b2n <= 0 THEN [o EXCEPT !.exp = Put(@, rk, X(IF e.b2n = 0 THEN "first" ELSE "firstplain"))]
-     ELSE IF ~Has(o.rend, key) THEN [o EXCEPT !.exp = Put(@, rk, X("e408"))]
+      K(kind) == [X EXCEPT !.kind = kind]
+  IN IF e.b2n <= 0
+       THEN [o EXCEPT !.exp = Put(@, rk, [K(IF e.b2n = 0 THEN "first" ELSE "firstplain")
+                                          EXCEPT !.fin = (e.b1n >= 0 \/ e.code \notin {1, 5} \/ e.plen > 0)])]
+     ELSE IF ~Has(o.rend, key) THEN [o EXCEPT !.exp = Put(@, rk, [K("e408") EXCEPT !.later = TRUE])]
      ELSE LET rd == o.rend[key]
               al == Alive(rd, e.t)
               off == e.b2n * size
-          IN IF al = "no" THEN [o EXCEPT !.exp = Put(@, rk, X("e408"))]
+              L(kind) == [K(kind) EXCEPT !.later = TRUE]
+          IN IF al = "no" THEN [o EXCEPT !.exp = Put(@, rk, L("e408"))]
              ELSE IF al = "maybe" \/ rd.amb
-               THEN [o EXCEPT !.rend[key].amb = TRUE, !.rend[key].umax = e.t, !.exp = Put(@, rk, X("any"))]
+               THEN [o EXCEPT !.rend[key].amb = TRUE, !.rend[key].umax = e.t, !.exp = Put(@, rk, L("any"))]
              ELSE IF off >= rd.len
                THEN \* beyond the end: 4.00; where the latest rendering never needed a block-wise transfer,
                     \* "no such rendering" (4.08) is as good a reading of the statement
-                    [o EXCEPT !.rend[key].umax = e.t, !.exp = Put(@, rk, X(IF rd.chunked THEN "e400b" ELSE "e400or408b"))]
+                    [o EXCEPT !.rend[key].umax = e.t, !.exp = Put(@, rk, L(IF rd.chunked THEN "e400b" ELSE "e400or408b"))]
              ELSE [o EXCEPT !.rend[key].use = e.t, !.rend[key].umax = e.t,
                             \* a rendering that needed no block-wise transfer need not have been kept
-                            !.exp = Put(@, rk, [X(IF rd.chunked THEN "slice" ELSE "slice408") EXCEPT !.cid = rd.cid, !.off = off,
+                            !.exp = Put(@, rk, [L(IF rd.chunked THEN "slice" ELSE "slice408") EXCEPT !.cid = rd.cid, !.off = off,
                                                                   !.len = Min(size, rd.len - off),
                                                                   !.m = IF off + size < rd.len THEN 1 ELSE 0])]
 
@@ -84,20 +125,36 @@ ObsRx(o, e) ==
   IF e.cls # "req" THEN o
   ELSE LET key == <<e.r, e.code, e.ck>>
            rk == <<e.r, e.tok>>
-       IN IF e.b1n >= 0 THEN ObsRxBlock1(o, e, key, rk)
-          ELSE IF e.code \in {1, 5} THEN ObsRxBlock2(o, e, key, rk)
-          ELSE [o EXCEPT !.exp = Put(@, rk, [NoExp EXCEPT !.kind = "final", !.key = key, !.len = e.plen])]
+           b == ObsBody(o, e, key)
+           X0 == [NoExp EXCEPT !.key = key, !.hasb1 = (e.b1n >= 0), !.pay = e.plen]
+       IN CASE b.bk = "continue" ->
+                 [b.o EXCEPT !.exp = Put(@, rk, [X0 EXCEPT !.kind = "continue", !.n = e.b1n, !.m = e.b1m, !.s = e.b1s])]
+            [] b.bk \in {"e408", "e400", "e400or408"} ->
+                 [b.o EXCEPT !.exp = Put(@, rk, [X0 EXCEPT !.kind = b.bk, !.n = e.b1n, !.m = e.b1m, !.s = e.b1s])]
+            [] b.bk = "any" ->
+                 \* whether the body is complete is open; if it is and the request asks for a later block, the
+                 \* rendering of this key is used: from here on its lifetime is open as well
+                 LET o1 == IF e.b2n > 0 /\ Has(b.o.rend, key)
+                             THEN [b.o EXCEPT !.rend[key].amb = TRUE, !.rend[key].umax = e.t] ELSE b.o
+                 IN [o1 EXCEPT !.exp = Put(@, rk, [X0 EXCEPT !.kind = "any", !.n = e.b1n, !.m = e.b1m, !.s = e.b1s])]
+            [] OTHER -> ObsRender(b.o, e, key, rk, [X0 EXCEPT !.blen = b.blen, !.n = e.b2n, !.s = e.b2s])
 
 (* ---- the handler ------------------------------------------------------------ *)
 ObsCall(o, e) ==
   LET rk == <<e.r, e.tok>> IN
   IF ~Has(o.exp, rk) THEN Flag(o, "C06_HandlerSeesCompleteBody")
   ELSE LET x == o.exp[rk]
-           o1 == [o EXCEPT !.inv = Put(@, e.inv, rk), !.exp[rk].calls = @ + 1]
-       IN IF x.kind = "final"
-            THEN \* exactly the in-order concatenation of blocks 0..n of this key: canonical string, full length
-                 FlagIf(o1, ~(e.plen = x.len /\ e.cok /\ x.calls = 0), "C06_HandlerSeesCompleteBody")
-          ELSE IF x.kind \in {"first", "firstplain", "any"} THEN o1
+           o1 == IncIf([o EXCEPT !.inv = Put(@, e.inv, rk), !.exp[rk].calls = @ + 1], TRUE, "calls")
+       IN IF x.kind \in FirstKinds
+            THEN \* exactly the in-order concatenation of blocks 0..n of this key (canonical string, full length),
+                 \* and once per completed body
+                 FlagIf(FlagIf(o1, ~(e.plen = x.blen /\ e.cok), "C06_HandlerSeesCompleteBody"),
+                        x.calls > 0, "C06_OneInvocationPerBody")
+          ELSE IF x.kind = "any" THEN o1
+          ELSE IF x.later /\ x.hasb1
+            THEN \* a request that completes a body AND asks for a later block of a rendering: the statement
+                 \* allows serving the slice without the handler as well as invoking it (then see ObsRelease)
+                 o1
           ELSE \* an intermediate block, a rejected continuation or a later Block2 request reached the handler
                Flag(o1, IF x.kind \in {"slice", "slice408"} THEN "C06_Block2FromSingleRendering" ELSE "C06_HandlerSeesCompleteBody")
 
@@ -106,43 +163,59 @@ ObsRelease(o, e) ==
   IF ~Has(o.inv, e.inv) THEN o
   ELSE LET rk == o.inv[e.inv]
            x == o.exp[rk]
-       IN IF x.kind \in {"first", "firstplain"}
-            THEN [o EXCEPT !.rend = Put(@, x.key, [cid |-> e.inv % 256, len |-> e.plen, use |-> e.t, umax |-> e.t, amb |-> FALSE,
-                                                   chunked |-> FALSE]),
+           Rec(amb) == [cid |-> e.inv % 256, len |-> e.plen, use |-> e.t, umax |-> e.t, amb |-> amb, chunked |-> FALSE, s0 |-> -1]
+       IN IF x.kind \in FirstKinds
+            THEN [o EXCEPT !.rend = Put(@, x.key, Rec(FALSE)),
                            !.exp[rk].body = e.plen, !.exp[rk].cid = e.inv % 256]
-            ELSE o
+            ELSE \* a rendering made for a request the clauses do not account for: nothing about this key's
+                 \* rendering is judged until the next block-0 request
+                 [o EXCEPT !.rend = Put(@, x.key, Rec(TRUE))]
 
 (* ---- the response ------------------------------------------------------------ *)
-ObsTx(o, e) ==
-  IF e.cls # "resp" THEN o
-  ELSE LET rk == <<e.r, e.tok>> IN
-       IF ~Has(o.exp, rk) \/ o.exp[rk].seen THEN o
-       ELSE
+SliceMatch(x, e) ==
+  /\ IsSuccess(e.code) /\ e.b2n = x.n /\ SzxOk(x.s, e.b2s) /\ e.b2m = x.m /\ e.plen = x.len
+  /\ e.cok /\ (e.cid = x.cid \/ e.cid = -2) /\ e.off = x.off
+
+ObsTxJudge(o, e, rk) ==
        LET x == o.exp[rk]
            size == Size(x.s)
-           o0 == [o EXCEPT !.exp[rk].seen = TRUE]
+           served == x.later /\ x.kind \in {"slice", "slice408"} /\ IsSuccess(e.code)
+           oc0 == IncIf([o EXCEPT !.exp[rk].seen = TRUE], TRUE, x.kind)
+           oc1 == IncIf(oc0, x.kind \in FirstKinds /\ x.hasb1 /\ x.body >= 0, "first_after_block1")
+           oc2 == IncIf(oc1, x.kind \in FirstKinds /\ x.hasb1 /\ x.body >= 0 /\ e.b2m = 1 /\ e.b1n >= 0, "combined_first_slice")
+           oc3 == IncIf(oc2, served /\ x.key[2] # 1, "later_payload_method")
+           oc4 == IncIf(oc3, served /\ x.pay > 0 /\ ~x.hasb1, "later_with_payload")
+           oc5 == IncIf(oc4, x.later /\ x.hasb1, "later_with_block1")
+           oc6 == IncIf(oc5, (x.later \/ x.kind \in FirstKinds) /\ x.s = 7, "szx7")
+           oc7 == IncIf(oc6, x.kind = "first" /\ x.body >= 0 /\ x.body <= size /\ x.s > 0, "first_larger_than_rendering")
+           oc8 == IncIf(oc7, x.kind \in FirstKinds /\ ~x.hasb1 /\ x.pay > 0, "whole_body_no_block1")
+           \* a later block asked for with another size exponent than the first slice was served with
+           o0 == IncIf(oc8, served /\ Has(o.rend, x.key) /\ o.rend[x.key].s0 >= 0 /\ o.rend[x.key].s0 # x.s, "later_rebased")
            o1 == FlagIf(o0, e.code >= 160 /\ x.kind # "any", "C06_No5xx")
-       IN CASE x.kind = "continue" ->
+           \* the reserved size exponent 7: refusing it (4.00, RFC 7959) is as good as serving 1024-byte blocks
+           bertRefused == x.s = 7 /\ e.code = 128 /\ (x.later \/ x.kind \in FirstKinds)
+       IN IF bertRefused THEN [o1 EXCEPT !.exp[rk].kind = "any"]
+          ELSE
+          CASE x.kind = "continue" ->
                  FlagIf(o1, ~(e.code = 95 /\ e.b1n = x.n /\ e.b1m = x.m /\ e.b1s = x.s), "C06_Continue231EchoesBlock1")
             [] x.kind = "e408" -> FlagIf(o1, e.code # 136, "C06_NonExtending408")
             [] x.kind = "e400" -> FlagIf(o1, e.code # 128, "C06_SizeContradiction400")
             [] x.kind = "e400b" -> FlagIf(o1, e.code # 128, "C06_Block2BeyondEnd400")
             [] x.kind = "e400or408" -> FlagIf(o1, e.code \notin {128, 136}, "C06_SizeContradiction400")
             [] x.kind = "e400or408b" -> FlagIf(o1, e.code \notin {128, 136}, "C06_Block2BeyondEnd400")
-            [] x.kind = "final" -> FlagIf(o1, x.calls = 0, "C06_CompleteBodyReachesHandler")
-            [] x.kind = "slice" ->
-                 FlagIf(o1, ~(e.code = 69 /\ e.b2n = x.n /\ e.b2s = x.s /\ e.b2m = x.m /\ e.plen = x.len
-                              /\ e.cok /\ (e.cid = x.cid \/ e.cid = -2) /\ e.off = x.off), "C06_Block2IsSlice")
-            [] x.kind = "slice408" ->
-                 FlagIf(o1, ~(e.code = 136 \/
-                              (e.code = 69 /\ e.b2n = x.n /\ e.b2s = x.s /\ e.b2m = x.m /\ e.plen = x.len
-                               /\ e.cok /\ (e.cid = x.cid \/ e.cid = -2) /\ e.off = x.off)), "C06_Block2IsSlice")
-            [] x.kind \in {"first", "firstplain"} ->
-                 IF x.body < 0 THEN o1     \* answered without a rendering (an error): not this clause's business
+            [] x.kind = "slice" -> FlagIf(o1, ~SliceMatch(x, e), "C06_Block2IsSlice")
+            [] x.kind = "slice408" -> FlagIf(o1, ~(e.code = 136 \/ SliceMatch(x, e)), "C06_Block2IsSlice")
+            [] x.kind \in FirstKinds ->
+                 IF x.body < 0
+                   THEN \* answered without a rendering of its own.  A complete body (Block1, a payload, a method
+                        \* that carries one) must have reached the handler whatever the answer is; a plain block-0
+                        \* request answered successfully was not served from the rendering made for IT
+                        FlagIf(FlagIf(o1, x.fin /\ x.calls = 0, "C06_CompleteBodyReachesHandler"),
+                               ~x.fin /\ x.calls = 0 /\ IsSuccess(e.code), "C06_Block0MakesRendering")
                  ELSE LET chunked == e.b2n >= 0
                           sz == IF chunked THEN Size(e.b2s) ELSE 0
                           o2 == IF Has(o1.rend, x.key) /\ o1.rend[x.key].cid = x.cid
-                                  THEN [o1 EXCEPT !.rend[x.key].chunked = (e.b2m = 1)] ELSE o1
+                                  THEN [o1 EXCEPT !.rend[x.key].chunked = (e.b2m = 1), !.rend[x.key].s0 = e.b2s] ELSE o1
                       IN FlagIf(o2,
                             ~( /\ e.cok /\ (e.plen > 0 => ((e.cid = x.cid \/ e.cid = -2) /\ e.off = 0))
                                /\ IF chunked
@@ -155,9 +228,20 @@ ObsTx(o, e) ==
                             "C06_Block2IsSlice")
             [] OTHER -> o1
 
+\* the first response to a request is judged; the request is then forgotten (a repeated response -- a
+\* retransmission -- is not judged again, and the summary stays small)
+ObsTx(o, e) ==
+  IF e.cls # "resp" THEN o
+  ELSE LET rk == <<e.r, e.tok>> IN
+       IF ~Has(o.exp, rk) THEN o
+       ELSE LET j == ObsTxJudge(o, e, rk)
+            IN [j EXCEPT !.exp = [q \in (DOMAIN j.exp) \ {rk} |-> j.exp[q]],
+                         !.inv = [i \in {i2 \in DOMAIN j.inv : j.inv[i2] # rk} |-> j.inv[i]]]
+
 \* every complete body reached the handler (a final block that was accepted but never rendered)
 ObsEnd(o, e) ==
-  FlagIf(o, \E rk \in DOMAIN o.exp : o.exp[rk].kind = "final" /\ o.exp[rk].calls # 1,
+  \* (requests that were answered have been judged at their response; these are the unanswered ones)
+  FlagIf(o, \E rk \in DOMAIN o.exp : o.exp[rk].kind \in FirstKinds /\ o.exp[rk].fin /\ o.exp[rk].calls = 0,
          "C06_CompleteBodyReachesHandler")
 
 ObsEvent(o, e) ==
